@@ -116,7 +116,8 @@ class GraphModel(Analysis):
         return Out()
 
     def on_return(self, ip, node, val, st, fr):
-        self.ev(ip, 'RET', node, st, fr, val=val, in_loop=bool(ip.loopctx), ypend=st.a('ypend'))
+        self.ev(ip, 'RET', node, st, fr, val=val, in_loop=bool(ip.loopctx), ypend=st.a('ypend'),
+                scanned=st.a('scanned', False))
         return st
 
     def on_raise(self, ip, node, kind, st, fr):
@@ -141,6 +142,8 @@ class GraphModel(Analysis):
         return st
 
     def on_loop_exit(self, ip, ctx, st, fr):
+        if ctx.kind == 'for' and ctx.iter is not None and ctx.iter[0] == 'gen' and not ip.in_summary:
+            st = st.set(scanned=True)
         if ctx.kind == 'for' and st.a('ypend') is not None and not ip.in_summary:
             self.ev(ip, 'YIELD_UNMARKED', ctx.node, st, fr, val=st.a('ypend'))
             return st.set(m=None, ypend=None)
